@@ -801,9 +801,14 @@ def _is_source_string(c: Ctx, f: Func, s: ast.Subscript) -> bool:
         return False
     if isinstance(s.value, ast.Name):
         pass
-    # configuration values (options.quotes[i]) are not source text
+    # configuration values (options.quotes[i]) are not source text - also through a local that only ever holds one
     for n in ast.walk(s.value):
         if isinstance(n, ast.Attribute) and n.attr == "options":
+            return False
+    if isinstance(s.value, ast.Name):
+        ds = [n_.value for n_ in own_nodes(f.node) if isinstance(n_, ast.Assign) and any(isinstance(t, ast.Name) and t.id == s.value.id for t in n_.targets)]
+        if ds and s.value.id not in {a.arg for a in f.node.args.args + f.node.args.kwonlyargs} \
+                and all(any(isinstance(x, ast.Attribute) and x.attr == "options" for x in ast.walk(d)) for d in ds):
             return False
     return True
 
